@@ -176,7 +176,7 @@ def id_of(sim, action):
 
 
 class Sim:
-    def __init__(self, scenario, oracle: Oracle | None = None, trace=False, strategy_cls=None):
+    def __init__(self, scenario, oracle: Oracle | None = None, trace=False, strategy_cls=None, prebuilt=None, on_feed=None):
         self.scenario = scenario
         self.world = scenario["world"]
         self.program = scenario.get("program", [])
@@ -191,6 +191,9 @@ class Sim:
         self.crash = None
         self.trace_enabled = trace
         self.strategy_cls = strategy_cls
+        self.prebuilt = prebuilt or {}  # name -> DataFrame object to feed instead of the freshly built one (C02)
+        self.on_feed = on_feed  # callable(name, frame) invoked right before a frame is handed to demeter
+        self.fed = {}  # name -> the frame objects actually handed to demeter ('__prices__' for the price frame)
         self.markets = {}  # name -> market object
         self.mdata = {}  # name -> my own pristine copy of what was fed (dict of python values)
         self.tokens = {}
@@ -226,6 +229,11 @@ class Sim:
             if builder is None:
                 raise HarnessError(f"no builder for market kind {mw['kind']}")
             market = builder(self, mw)
+            if mw["name"] in self.prebuilt:
+                market.data = self.prebuilt[mw["name"]]
+            self.fed[mw["name"]] = market.data
+            if self.on_feed:
+                self.on_feed(mw["name"], market.data)
             self.markets[mw["name"]] = market
             self.broker.add_market(market)
         for name, amt in w.get("assets", {}).items():
@@ -235,6 +243,11 @@ class Sim:
             cols = {k.upper(): [D(x) for x in v] for k, v in w["prices"].items()}
             pidx = self.index if "price_index" not in w else pd.DatetimeIndex([pd.Timestamp(t) for t in w["price_index"]])
             pdf = pd.DataFrame(cols, index=pidx)
+            if "__prices__" in self.prebuilt:
+                pdf = self.prebuilt["__prices__"]
+            self.fed["__prices__"] = pdf
+            if self.on_feed:
+                self.on_feed("__prices__", pdf)
             q = w.get("quote", "USD")
             qt = USD if q == "USD" else self.token(q)
             self.my_prices = pdf.copy()
